@@ -6,3 +6,5 @@ open Femio.C15 Femio.Gradient
 #print axioms det3_eq_det
 #print axioms C15_translation_invariant
 #print axioms C15_moment_expanded
+#print axioms C15_row_weight_scale
+#print axioms C15_integer_affine_field
